@@ -259,6 +259,24 @@ func c14() {
 		}
 		distinct["action:"+name] = true
 	}
+	// values next to the named constants (return data in the low 16 bits, off-by-one words): whatever prints as a
+	// documented name must parse back to the very same value
+	for _, base := range docActions {
+		for _, d := range []uint32{1, 2, 13, 38, 0x7f, 0xff, 0x100, 0xfff, 0xffff, 0x10000, 0x80000000} {
+			for _, v := range []seccomp.Action{base | seccomp.Action(d), base + seccomp.Action(d), base - seccomp.Action(d), base ^ seccomp.Action(d)} {
+				txt := v.String()
+				run.Count("neighbour_values_printed", 1)
+				if want, isName := docActions[txt]; isName && want != v {
+					run.Violation("unnamed-value-prints-as-name", fmt.Sprintf("Action(%#x).String()=%q, but %q denotes %#x: printing and parsing back changes the value", uint32(v), txt, txt, uint32(want)), map[string]any{"check": "C14", "value": uint32(v)})
+				}
+				if b, err := v.MarshalText(); err == nil {
+					if want, isName := docActions[string(b)]; isName && want != v {
+						run.Violation("unnamed-value-marshals-as-name", fmt.Sprintf("Action(%#x).MarshalText()=%q, which denotes %#x", uint32(v), b, uint32(want)), map[string]any{"check": "C14", "value": uint32(v)})
+					}
+				}
+			}
+		}
+	}
 	for _, name := range docOps {
 		for _, s := range caseVariants(r0, name, 1024) {
 			judgeOp(s)
@@ -297,6 +315,11 @@ func c14() {
 		} else {
 			p = vlib.GenMixed(r, t, mp)
 		}
+		unnamed := i%9 == 4 && len(p.Syscalls) > 0
+		if unnamed { // a group action that carries return data (the only way to return another errno) or is no documented word
+			gi := r.Intn(len(p.Syscalls))
+			p.Syscalls[gi].Action = []seccomp.Action{vlib.RetErrno | 13, vlib.RetErrno | 38, vlib.RetTrace | 7, vlib.RetTrap | 1, vlib.RetUserNotif, vlib.RetAllow | 1, seccomp.Action(r.Uint32())}[r.Intn(7)]
+		}
 		spec := vlib.SpecOf(p, t.Name)
 		want := vlib.Compile(spec.Policy(), t)
 		if !want.OK() {
@@ -329,6 +352,9 @@ func c14() {
 			"json.Marshal":      func() ([]byte, error) { return json.Marshal(wrapper{spec.Policy()}) },
 		}
 		for _, rn := range []string{"hand-written-yaml", "yaml.Marshal", "json.Marshal"} {
+			if unnamed && rn == "hand-written-yaml" {
+				continue // the documented spelling has no word for such an action
+			}
 			text, err := renderings[rn]()
 			replay := map[string]any{"check": "C14", "renderer": rn, "policy": spec, "text": string(text)}
 			if len(text) > 6000 {
@@ -354,6 +380,13 @@ func c14() {
 				loaded, err = loadThroughConfigPath(text)
 			}
 			run.Count("round_trips:"+rn, 1)
+			if unnamed {
+				run.Count("round_trips_with_unnamed_action", 1)
+				if err != nil {
+					run.Count("unnamed_action_refused_by_the_loader", 1) // refused loudly: fine
+					continue
+				}
+			}
 			if err != nil {
 				run.Violation("load-fails:"+rn, fmt.Sprintf("the %s rendering of a valid policy is rejected by the configuration path: %v", rn, err), replay)
 				continue
